@@ -40,7 +40,16 @@ PayCase(j) ==
   [fam |-> "C12", kind |-> "payload", valid |-> TRUE, mtu |-> m, flexible |-> flex, startid |-> <<0, 1, 32766, 32767>>[si],
    frames |-> << frame(1, 0), frame(2, 1), frame(3, 0) >>,
    class |-> "payload_" \o (IF flex THEN "flexible" ELSE "nonflexible") \o (IF m < 100 THEN "_small_mtu" ELSE "_large_mtu")]
-Pays == [j \in 1..(Len(MtuSeq) * 2 * 4 * 6 * 4) |-> PayCase(j - 1)]
+\* key frames whose headers differ only in the lowest bit of a size field (or not at all)
+SimilarCase(j) ==
+  LET pr == j % 4  cs == <<2, 7, 1>>[((j \div 4) % 3) + 1]  flex == (j \div 12) % 2 = 0  m == <<16, 1200>>[((j \div 24) % 2) + 1]
+      hd(w, hh) == [profile |-> pr, existing |-> FALSE, idx |-> 0, nonkey |-> FALSE, show |-> TRUE, errres |-> FALSE, deep |-> TRUE, cs |-> cs,
+                    range |-> TRUE, ssx |-> TRUE, ssy |-> FALSE, w |-> w, h |-> hh] IN
+  [fam |-> "C12", kind |-> "payload", valid |-> TRUE, mtu |-> m, flexible |-> flex, startid |-> 300,
+   frames |-> << [hdr |-> hd(1280, 720), body |-> 9, salt |-> 1], [hdr |-> hd(1280, 719), body |-> 9, salt |-> 1], [hdr |-> hd(1279, 719), body |-> 9, salt |-> 1],
+                 [hdr |-> hd(1279, 719), body |-> 9, salt |-> 1], [hdr |-> hd(1280, 720), body |-> 9, salt |-> 2] >>,
+   class |-> "payload_similar_key_frames"]
+Pays == [j \in 1..(Len(MtuSeq) * 2 * 4 * 6 * 4) |-> PayCase(j - 1)] \o [j \in 1..48 |-> SimilarCase(j - 1)]
 Raw == Descs \o Truncs \o Hdrs \o Pays
 CaseSeq == [i \in 1..Len(Raw) |-> Raw[i] @@ [case |-> i]]
 ASSUME WriteCases(CaseSeq) /\ PrintT(<<"CASES", Len(CaseSeq)>>)
